@@ -401,13 +401,24 @@ fn run_dedup(rep: &Reporter, counter: &AtomicU64) -> u64 {
     let mut n = 0;
     for (i, v1) in vals.iter().enumerate() {
         for (j, v2) in vals.iter().enumerate() {
-            for via in ["annotate+annotate", "dataset+annotate", "annotate+dataset"] {
+            for via in ["annotate+annotate", "dataset+annotate", "annotate+dataset", "builder+builder", "builder+annotate"] {
                 n += 1;
                 counter.fetch_add(1, Ordering::Relaxed);
                 let r = catch(|| -> Result<(usize, usize, usize, Vec<usize>, Vec<usize>), StamError> {
                     let mut store = AnnotationStore::new(Config::default());
                     store.add_resource(TextResourceBuilder::new().with_id("r").with_text("0123456789"))?;
-                    store.add_dataset(AnnotationDataSetBuilder::new().with_id("s0"))?;
+                    match via {
+                        // the dataset is declared through its builder, with the data in the declaration
+                        "builder+builder" => {
+                            store.add_dataset(AnnotationDataSetBuilder::new().with_id("s0").with_key_value("k", v1.clone()).with_key_value("k", v2.clone()))?;
+                        }
+                        "builder+annotate" => {
+                            store.add_dataset(AnnotationDataSetBuilder::new().with_id("s0").with_key_value("k", v1.clone()))?;
+                        }
+                        _ => {
+                            store.add_dataset(AnnotationDataSetBuilder::new().with_id("s0"))?;
+                        }
+                    }
                     let ann = |store: &mut AnnotationStore, id: &str, v: &DataValue| {
                         store.annotate(AnnotationBuilder::new().with_id(id.to_string()).with_target(SelectorBuilder::textselector("r", Offset::simple(0, 1))).with_data("s0", "k", v.clone()))
                     };
@@ -423,6 +434,10 @@ fn run_dedup(rep: &Reporter, counter: &AtomicU64) -> u64 {
                         }
                         "dataset+annotate" => {
                             direct(&mut store, v1)?;
+                            ann(&mut store, "y", v2)?;
+                        }
+                        "builder+builder" => {}
+                        "builder+annotate" => {
                             ann(&mut store, "y", v2)?;
                         }
                         _ => {
